@@ -101,6 +101,9 @@ func decodeFrame[T any](c Codec[T], f T, isReq bool) (string, error) {
 			}
 			return x, nil
 		}
+		if v == nil && isBytesCodec(c.Name) {
+			return nil, errors.New("payload is null instead of an encoded value")
+		}
 		return v, nil
 	}
 	if isReq {
